@@ -298,7 +298,7 @@ class GaussianUnitary(Compiler):
         # And now we just pass the net transformation as a big Symplectic operation plus displacements
         ord_reg = [r for r in list(registers) if r.ind in used_modes]
         ord_reg = sorted(list(ord_reg), key=lambda x: x.ind)
-        if np.allclose(Snet, np.identity(2 * nmodes)):
+        if np.allclose(Snet, np.identity(2 * nmodes), atol=1e-13, rtol=0):
             A = []
         else:
             A = [Command(ops.GaussianTransform(Snet), ord_reg)]
